@@ -74,7 +74,45 @@ def derive_async_oracle(src_text):
     if "c.finalize()" in fn or ".await.await" in fn:
         raise RuntimeError("derive_async_oracle: leftover")
     fn = fn.replace('&["C', '&["C19", "C')      # every clause of the async flavour also serves C19
-    return head + fn + _derive_async_extremes(s)
+    return head + fn + _derive_async_extremes(s) + _derive_async_generic(s, "colliding_keys_stay_isolated")
+
+
+AWAITED = ("insert", "insert_with_ttl", "insert_if_present", "remove", "clear", "wait", "close", "get", "get_mut")
+
+
+def _derive_async_generic(s, name):
+    """a scripted oracle test of replay/cache.rs for the async flavour: AsyncCache built with finalize(tokio::spawn), every call of an
+    async method on the cache handle `c` awaited, body inside a tokio runtime"""
+    tag = "#[test]\nfn %s() {" % name
+    if tag not in s:
+        return ""
+    a = s.index(tag)
+    b = s.index("\n}\n", a) + 3
+    fn = s[a:b]
+    fn = fn.replace("fn %s()" % name, "fn async_%s()" % name).replace('"%s"' % name, '"async_%s"' % name)
+    fn = fn.replace("let c: Cache<", "let c: AsyncCache<").replace("= Cache::builder(", "= AsyncCache::builder(").replace(".finalize()", ".finalize(tokio::spawn)")
+    out, i = [], 0
+    rx = re.compile(r"\bc\.(%s)\(" % "|".join(AWAITED))
+    while True:
+        m = rx.search(fn, i)
+        if not m:
+            out.append(fn[i:])
+            break
+        j, depth = m.end(), 1
+        while depth:
+            ch = fn[j]
+            depth += (ch == "(") - (ch == ")")
+            j += 1
+        out.append(fn[i:j] + ".await")
+        i = j
+    fn = "".join(out)
+    g0 = fn.index("guarded(")
+    g1 = fn.index("|| {", g0) + 4
+    g2 = fn.rindex("});")
+    fn = (fn[:g1] + "\n    tokio::runtime::Builder::new_multi_thread().worker_threads(2).enable_all().build().unwrap().block_on(async {\n"
+          + fn[g1:g2] + "\n    });\n    " + fn[g2:])
+    fn = fn.replace('"Cache(', '"AsyncCache(').replace('&["C', '&["C19", "C')
+    return "\n" + fn
 
 
 def _derive_async_extremes(s):
